@@ -1,6 +1,6 @@
 """C20 -- allocation failure always ends in the controlled abort (DESIGN 5/C20)."""
 BOUNDS = {
- "quick": "13 scenarios (create/window, header-pool growth with 64 live headers, naive / M4RM / Strassen-front-end products, M4RI / PLUQ / naive elimination, PLE / PLUQ, three inversions, solve + kernel, transpose / copy / submatrix / concat / stack / permutations, DJB compile with > 64 operations, DJB small, string constructor) x configurations {ts, def}: CBMC's --malloc-may-fail --malloc-fail-null makes EVERY allocation of the scenario (malloc, calloc, realloc, posix_memalign stub) return NULL nondeterministically - all fault positions and multi-fault combinations are decided in one query, with CBMC's pointer-validity and bounds checks on (NULL / freed / out-of-object dereference)",
+ "quick": "15 scenarios (the slow ones run in the thorough tier, see plans/slow.json): (create/window, header-pool growth with 64 live headers, naive / M4RM / Strassen-front-end products, M4RI / PLUQ / naive elimination, PLE / PLUQ, three inversions, solve + kernel, transpose / copy / submatrix / concat / stack / permutations, DJB compile with > 64 operations, DJB small, string constructor) x configurations {ts, def}: CBMC's --malloc-may-fail --malloc-fail-null makes EVERY allocation of the scenario (malloc, calloc, realloc, posix_memalign stub) return NULL nondeterministically - all fault positions and multi-fault combinations are decided in one query, with CBMC's pointer-validity and bounds checks on (NULL / freed / out-of-object dereference)",
  "thorough": "adds sse/ssedef configurations (mm_malloc path)",
 }
 OUTSIDE = "scenarios not listed; PNG read/write (libpng allocations are FFI stubs, see C18); allocation failure inside libc itself"
@@ -11,10 +11,11 @@ def plan(tier, seed):
     T = tier == "thorough"
     qs = []
     for cfg in (("ts", "def") if not T else ("ts", "def", "sse", "ssedef")):
-        for sc in range(13):
+        for sc in range(15):
             if sc == 1 and cfg not in ("def", "ssedef"): continue
             us = {}
-            if sc in (10, 11): us = {"heap_push": 8, "heap_pop": 8}
-            qs.append(Q("fail-s%d-%s" % (sc, cfg), "c20.c", {"SCEN": sc, "VSEED": 1 + seed}, cfg=cfg, group="c20-%s" % cfg, checks="ptr", malloc_fail=True,
+            if sc == 14: us = {"heap_push": 8, "heap_pop": 8, "mzd_compare_rows_revlex": 3}
+            if sc in (10, 11): us = {"heap_push": 8, "heap_pop": 8, "djb_compile": 300 if sc == 10 else 30, "mzd_compare_rows_revlex": 3}
+            qs.append(Q("fail-s%d-%s" % (sc, cfg), "c20.c", {"SCEN": sc, "VSEED": 1 + seed}, cfg=cfg, group="c20-%s" % cfg, checks="ptr", malloc_fail=True, unwindset=us,
                         timeout=1500, fallback="kissat", mem_gb=10, cbmc_flags=("--max-field-sensitivity-array-size", "16") if cfg in ("def", "ssedef") else ()))
     return qs
